@@ -347,6 +347,12 @@ def init_walkers(ctx):
     for k, (path, term, line) in enumerate(ret_leaves):
         pol = polarity(path, is_restricted)
         t = strip_wrappers(term)
+        if any(x.op in ("loopout", "havoc") for x in subterms(t)):
+            # the container is filled by a loop over a list chosen earlier (single-exit form): the value is not a display
+            # this rule can read; recorded, not judged
+            ctx.rep.note(f"{fi.qualname}: return #{k} (line {line}) is built by a loop over a selected list; the container-kind "
+                         f"and acceptance-test rules are not applied to it")
+            continue
         if pol is True:
             ok = _replicated(t, nw)
             msg = "one array replicated n_walkers times" if ok else \
@@ -453,6 +459,14 @@ def init_walkers(ctx):
         is_ve = t.op == "call" and func_name(t) == "builtins.ValueError"
         rejected = [c for c, pol_ in path if (cm := m_cmp(c)) is not None and cm[0] in (">", ">=")
                     and not pol_]
+        if is_ve and len(rejected) < 2:
+            # the refusal is reached through a flag / a None test set by the searches (single-exit form): the failed
+            # comparisons are not on its path condition; that it is the explicit ValueError is what is decided
+            ctx.rep.note(f"{fi.qualname}: failure #{k} is raised under a condition that does not name the acceptance tests "
+                         f"({len(rejected)} visible); only the exception type is judged")
+            ctx.rep.ob("PATH-1", f"{fi.qualname}: failure #{k} is an explicit ValueError", True,
+                       f"raise {show(t, maxdepth=1)[:60]}", p.modules[fi.module].path, line)
+            continue
         ctx.rep.ob("PATH-1", f"{fi.qualname}: failure #{k} is an explicit ValueError after every test failed",
                    is_ve and len(rejected) >= 2, f"raise {show(t, maxdepth=1)[:60]} after "
                    f"{len(rejected)} failed acceptance tests", p.modules[fi.module].path, line)
